@@ -80,7 +80,7 @@ type ListSys[T comparable] struct {
 	Poison T
 	N      int
 	Cmps   map[string]func(a, b T) int // nat, rev, coarse
-	Ctor   bool                        // root built by New(values...) variants too
+	NoCtor bool                        // do not offer the variadic-constructor operations
 	// JSONTexts: inputs offered as FromJSON operations (null entries over whatever the backing array held)
 	JSONTexts []string
 	// Deep mode (data independence): every inserted value is fresh (Gen(counter)) and of a type
@@ -224,8 +224,13 @@ func (b *listBox[T]) Ops() []Op {
 	var ops []Op
 	n := len(b.ref)
 	room := b.sys.N - n
-	if n == 0 && b.sys.Ctor {
-		// nothing: constructor variants are separate roots handled by "New" ops below
+	if n == 0 && !b.sys.NoCtor {
+		// constructor forms: a list built by New(values...) takes the place of the empty one
+		for ti, t := range listTuples {
+			if len(t) > 0 && len(t) <= room {
+				ops = append(ops, op("New", ti))
+			}
+		}
 	}
 	names := []string{"Add"}
 	if b.a.app != nil {
@@ -287,6 +292,8 @@ func (b *listBox[T]) Describe(o Op) string {
 		return fmt.Sprintf("Sort(%s)", cmpNames[o.A[0]])
 	case "FromJSON":
 		return fmt.Sprintf("FromJSON(%s)", b.sys.JSONTexts[o.A[0]])
+	case "New":
+		return fmt.Sprintf("replaced by New(%v...)", b.tuple(o.A[0]))
 	}
 	return o.N + "()"
 }
@@ -388,6 +395,14 @@ func (b *listBox[T]) Do(o Op) *Viol {
 	case "Clear":
 		b.a.clear()
 		b.ref = nil
+	case "New":
+		vs := b.tuple(o.A[0])
+		arg := argSlice(vs)
+		b.a = b.sys.newAPI(arg...)
+		if v := scribbleCheck(arg, b.sys.Poison, b.a.values, b.a.name, "New"); v != nil {
+			return v
+		}
+		b.ref = append([]T{}, vs...)
 	case "FromJSON":
 		data := []byte(b.sys.JSONTexts[o.A[0]])
 		if err := b.a.obj.(interface{ FromJSON([]byte) error }).FromJSON(data); err != nil {
